@@ -93,7 +93,8 @@ def borrowed_params(fdef):
 class Fn:
     """translation context of one function"""
 
-    def __init__(self, node, sigs, method=False, floats=False, numpy=(), graph=False, objects=(), coding=False):
+    def __init__(self, node, sigs, method=False, floats=False, numpy=(), graph=False, objects=(), coding=False, repair=False,
+                 itertools=()):
         self.node = node
         self.sigs = sigs                      # name -> (params, {param: default ast})
         self.method = method                  # a method: `self.x` is the variable "self.x"; attributes read become parameters
@@ -103,6 +104,8 @@ class Fn:
         self.objects = set(objects)           # parameters that are objects whose methods are callees: p.m(x) is ECall "p.m"
         self.coding = coding                  # target MiniPyH.v (conditional comprehensions, chained comparisons, any / all / copy)
         self.borrowing = {}                   # callee name -> parameters it only reads (set by the generator)
+        self.repair = repair                  # target MiniPyR.v (sets, del, zip, product, sorted, filter-lambda)
+        self.itertools = set(itertools)       # names imported from itertools (product)
         self.params = [a.arg for a in node.args.args]
         a = node.args
         if a.vararg or a.kwarg or a.kwonlyargs or a.posonlyargs or node.decorator_list:
@@ -131,8 +134,10 @@ class Fn:
         for n in ast.walk(node):
             if isinstance(n, ast.Name) and isinstance(n.ctx, ast.Store):
                 self.assigned.add(n.id)
-            if isinstance(n, (ast.Global, ast.Nonlocal, ast.Lambda, ast.FunctionDef)) and n is not node:
+            if isinstance(n, (ast.Global, ast.Nonlocal, ast.FunctionDef)) and n is not node:
                 raise Refuse("%s: %s" % (node.name, type(n).__name__))
+            if isinstance(n, ast.Lambda) and not repair:
+                raise Refuse("%s: Lambda" % node.name)
             if isinstance(n, ast.Assign) and isinstance(n.value, ast.Call) and isinstance(n.value.func, ast.Name) \
                     and n.value.func.id == "Monitor":
                 if len(n.targets) != 1 or not isinstance(n.targets[0], ast.Name) or n.value.args or n.value.keywords:
@@ -301,6 +306,9 @@ class Fn:
                 if name == "zeros" and not e.args and set(kws) == {"shape", "dtype"} and dtype_int \
                         and isinstance(kws["shape"], ast.Tuple) and len(kws["shape"].elts) == 1:
                     return "(EB1 BNpZeros %s)" % self.expr(kws["shape"].elts[0])
+                if self.repair and name == "ones" and not e.args and set(kws) == {"shape", "dtype"} and dtype_int \
+                        and isinstance(kws["shape"], ast.Tuple) and len(kws["shape"].elts) == 1:
+                    return "(EB1 BNpOnes1 %s)" % self.expr(kws["shape"].elts[0])
                 if self.graph:
                     dtype_bool = "dtype" in kws and isinstance(kws["dtype"], ast.Name) and kws["dtype"].id == "bool" \
                         and "bool" not in self.assigned
@@ -318,8 +326,33 @@ class Fn:
                 raise Refuse("numpy call %s" % ast.unparse(e)[:60])
             if e.keywords:
                 raise Refuse("keyword arguments to %s" % name)
-            if name in ("sum", "max", "min", "any", "all", "sorted") :
+            if name in ("sum", "max", "min", "any", "all") or (name == "sorted" and not self.repair):
                 raise Refuse("builtin %s" % name)
+            if self.repair:
+                if name == "set" and not e.args:
+                    return "ESetNew"
+                if name == "zip" and len(e.args) == 2:
+                    return "(EB2 BZip %s %s)" % (self.expr(e.args[0]), self.expr(e.args[1]))
+                if name == "sorted" and len(e.args) == 1:
+                    return "(EB1 BSorted %s)" % self.expr(e.args[0])
+                if name == "product" and name in self.itertools and len(e.args) == 1 and isinstance(e.args[0], ast.Starred):
+                    return "(EB1 BProduct %s)" % self.expr(e.args[0].value)
+                # list(filter(lambda v: cond, xs))  is  [v for v in xs if cond]
+                if name == "list" and len(e.args) == 1 and isinstance(e.args[0], ast.Call) and isinstance(e.args[0].func, ast.Name) \
+                        and e.args[0].func.id == "filter" and "filter" not in self.assigned and len(e.args[0].args) == 2 \
+                        and isinstance(e.args[0].args[0], ast.Lambda):
+                    lam, xs = e.args[0].args
+                    la = lam.args
+                    if len(la.args) != 1 or la.vararg or la.kwarg or la.defaults or la.kwonlyargs:
+                        raise Refuse("lambda signature")
+                    v = la.args[0].arg
+                    if v in self.assigned:
+                        raise Refuse("lambda variable shadows a name")
+                    saved = set(self.assigned)
+                    self.assigned.add(v)
+                    cond = self.expr(lam.body)
+                    self.assigned = saved
+                    return "(ECompIf (EVar %s) %s %s %s)" % (qs(v), qs(v), self.expr(xs), cond)
             if name in B1 and len(e.args) == 1:
                 return "(EB1 %s %s)" % (B1[name], self.expr(e.args[0]))
             if name == "range":
@@ -454,6 +487,14 @@ class Fn:
                     return "(SAppend %s %s)" % (qs(x), self.expr(v.args[0]))
                 if v.func.attr == "insert" and len(v.args) == 2:
                     return "(SInsert %s %s %s)" % (qs(x), self.expr(v.args[0]), self.expr(v.args[1]))
+                if self.repair and v.func.attr == "add" and len(v.args) == 1:
+                    return "(SSetAdd %s %s)" % (qs(x), self.expr(v.args[0]))
+            if self.repair and isinstance(v, ast.Call) and isinstance(v.func, ast.Attribute) and v.func.attr == "add" \
+                    and len(v.args) == 1 and not v.keywords and isinstance(v.func.value, ast.Subscript) \
+                    and isinstance(v.func.value.value, ast.Name) and not isinstance(v.func.value.slice, (ast.Slice, ast.Tuple)):
+                return "(SSetAdd2 %s %s %s)" % (qs(v.func.value.value.id), self.expr(v.func.value.slice), self.expr(v.args[0]))
+            if False:
+                pass
             raise Refuse("expression statement %s" % ast.unparse(s)[:60])
         if isinstance(s, ast.Assign):
             if len(s.targets) != 1:
@@ -488,6 +529,9 @@ class Fn:
             return "SSkip"
         if self.graph and isinstance(s, ast.Break):
             return "SBreak"
+        if self.repair and isinstance(s, ast.Delete) and len(s.targets) == 1 and isinstance(s.targets[0], ast.Subscript) \
+                and isinstance(s.targets[0].value, ast.Name) and not isinstance(s.targets[0].slice, (ast.Slice, ast.Tuple)):
+            return "(SDel %s %s)" % (qs(s.targets[0].value.id), self.expr(s.targets[0].slice))
         raise Refuse("statement %s" % type(s).__name__)
 
     # ---------------------------------------------------------------- aliasing side condition
@@ -505,8 +549,16 @@ class Fn:
                         if isinstance(t, ast.Subscript) and isinstance(t.value, ast.Subscript) and isinstance(t.value.value, ast.Name):
                             out.add(t.value.value.id)
                 if isinstance(x, ast.Call) and isinstance(x.func, ast.Attribute) and isinstance(x.func.value, ast.Name) \
-                        and x.func.attr in ("append", "insert", "extend", "pop", "remove", "sort", "reverse", "clear"):
+                        and x.func.attr in ("append", "insert", "extend", "pop", "remove", "sort", "reverse", "clear", "add", "discard", "update"):
                     out.add(x.func.value.id)
+                if isinstance(x, ast.Call) and isinstance(x.func, ast.Attribute) and isinstance(x.func.value, ast.Subscript) \
+                        and isinstance(x.func.value.value, ast.Name) \
+                        and x.func.attr in ("append", "insert", "extend", "pop", "remove", "sort", "reverse", "clear", "add", "discard", "update"):
+                    out.add(x.func.value.value.id)
+                if isinstance(x, ast.Delete):
+                    for t in x.targets:
+                        if isinstance(t, ast.Subscript) and isinstance(t.value, ast.Name):
+                            out.add(t.value.id)
             return out
         mutated = mutations(node)
         # x += e extends a list IN PLACE: a mutation when x is ever bound to a list
@@ -592,6 +644,8 @@ class Fn:
                     and v.func.id not in self.assigned:
                 return True
             if isinstance(v, ast.Call) and isinstance(v.func, ast.Name) and v.func.id in ("array", "zeros", "ones") and v.func.id in self.numpy:
+                return True
+            if isinstance(v, ast.Call) and isinstance(v.func, ast.Name) and v.func.id in ("set", "sorted") and v.func.id not in self.assigned:
                 return True
             if isinstance(v, ast.UnaryOp) and isinstance(v.op, ast.USub):
                 return True                      # arithmetic always builds a new object
@@ -841,6 +895,65 @@ def generate_graph(repo, out_path):
     return order
 
 
+REPAIR_FUNCS = ["path_matching", "repair_dna"]
+
+
+def generate_repair(repo, out_path):
+    """path_matching (dsw/graphized.py) and repair_dna (dsw/spiderweb.py) as MiniPyR terms; dna_to_number (dsw/operation.py) and
+    set_vt (regenerated in the coder unit) are left to the callee environment."""
+    sp = ast.parse(open(os.path.join(repo, "dsw", "spiderweb.py")).read())
+    gr = ast.parse(open(os.path.join(repo, "dsw", "graphized.py")).read())
+    op = ast.parse(open(os.path.join(repo, "dsw", "operation.py")).read())
+    np_names, it_names, imported = {"s": set(), "g": set()}, {"s": set(), "g": set()}, set()
+    for rel, tree in (("s", sp), ("g", gr)):
+        for n in tree.body:
+            if isinstance(n, ast.ImportFrom):
+                for a in n.names:
+                    if a.asname is not None:
+                        raise Refuse("import ... as")
+                    if n.module == "numpy":
+                        np_names[rel].add(a.name)
+                    if n.module == "itertools":
+                        it_names[rel].add(a.name)
+                    if rel == "s" and n.module in ("dsw.graphized", "dsw.operation"):
+                        imported.add(a.name)
+            elif isinstance(n, ast.Import):
+                raise Refuse("plain import at module level")
+            elif isinstance(n, (ast.Assign, ast.AugAssign, ast.AnnAssign)):
+                raise Refuse("module-level assignment")
+    for c in ("path_matching", "dna_to_number"):
+        if c not in imported:
+            raise Refuse("spiderweb.py does not import %s" % c)
+    pm = [n for n in gr.body if isinstance(n, ast.FunctionDef) and n.name == "path_matching"]
+    rd = [n for n in sp.body if isinstance(n, ast.FunctionDef) and n.name == "repair_dna"]
+    sv = [n for n in sp.body if isinstance(n, ast.FunctionDef) and n.name == "set_vt"]
+    d2n = [n for n in op.body if isinstance(n, ast.FunctionDef) and n.name == "dna_to_number"]
+    if len(pm) != 1 or len(rd) != 1 or len(sv) != 1 or len(d2n) != 1:
+        raise Refuse("function definitions")
+    if any(isinstance(n, (ast.FunctionDef, ast.ClassDef)) and n.name in ("path_matching", "dna_to_number") for n in sp.body):
+        raise Refuse("spiderweb.py re-defines an imported function")
+    sigs = {}
+    for d in pm + rd + sv + d2n:
+        a = d.args
+        params = [x.arg for x in a.args]
+        dflt = dict(zip(params[len(params) - len(a.defaults):], a.defaults))
+        if any(not isinstance(v, ast.Constant) for v in dflt.values()):
+            raise Refuse("non-constant default")
+        sigs[d.name] = (params, dflt)
+    parts = ["(* GENERATED by harness/translate_minipy.py from %s/dsw/graphized.py and spiderweb.py -- do not edit *)\n"
+             "From DSW Require Import MiniPyR.\nOpen Scope Z_scope.\n" % repo]
+    used = {"where", "sum", "array", "zeros", "ones"}
+    f1 = Fn(pm[0], {}, numpy=used & np_names["g"], graph=True, coding=True, repair=True, itertools=it_names["g"])
+    parts.append(f1.translate())
+    f2 = Fn(rd[0], sigs, numpy=used & np_names["s"], graph=True, coding=True, repair=True, itertools=it_names["s"])
+    f2.borrowing = {"path_matching": borrowed_params(pm[0])}
+    parts.append(f2.translate())
+    parts.append("Definition repair_module : module :=\n %s.\n"
+                 % coq_list(["(%s, %s_def)" % (qs(f), f) for f in ["repair_dna", "path_matching"]]))
+    open(out_path, "w").write("\n".join(parts))
+    return REPAIR_FUNCS
+
+
 CODING_FUNCS = ["connect_coding_graph"]
 
 
@@ -948,6 +1061,9 @@ if __name__ == "__main__":
     import sys
     if sys.argv[1:2] == ["biofilter"]:
         generate_biofilter(sys.argv[2], sys.argv[3])
+        sys.exit(0)
+    if sys.argv[1:2] == ["repair"]:
+        generate_repair(sys.argv[2], sys.argv[3])
         sys.exit(0)
     if sys.argv[1:2] == ["coding"]:
         generate_coding(sys.argv[2], sys.argv[3])
